@@ -45,15 +45,40 @@ func ruleLinkKind(c *Ctx) {
 		"ProtoArray.ApplyScoreChanges": "ForkchoiceParent", "ProtoArray.updateConnections": "ForkchoiceParent",
 	}
 	seen := map[string]int{}
+	// a function answers for the unexported helpers of the package it calls (two levels), unless a helper has a
+	// link of its own to answer for
+	decls := map[string]*ast.FuncDecl{}
 	c.P.funcDecls(func(p *packages.Package, fd *ast.FuncDecl) {
-		if p != pk || fd.Body == nil {
-			return
+		if p == pk && fd.Body != nil {
+			decls["proto."+funcName(fd)] = fd
 		}
-		w, ok := want[funcName(fd)]
-		if !ok {
-			return
+	})
+	_, closure := helperClosure(c.P)
+	type unit struct {
+		owner string
+		fd    *ast.FuncDecl
+	}
+	var units []unit
+	for _, fn := range sortedKeys(want) {
+		fd := decls["proto."+fn]
+		if fd == nil {
+			continue
 		}
-		fname := "proto." + funcName(fd)
+		units = append(units, unit{fn, fd})
+		for _, h := range closure["proto."+fn] {
+			if _, own := want[strings.TrimPrefix(h, "proto.")]; own {
+				continue
+			}
+			if hd := decls[h]; hd != nil {
+				units = append(units, unit{fn, hd})
+			}
+		}
+	}
+	for _, u := range units {
+		fd := u.fd
+		w := want[u.owner]
+		fname := "proto." + u.owner
+		ownerName := u.owner
 		ast.Inspect(fd.Body, func(n ast.Node) bool {
 			sel, ok := n.(*ast.SelectorExpr)
 			if !ok || (sel.Sel.Name != "TransitionParent" && sel.Sel.Name != "ForkchoiceParent") {
@@ -62,8 +87,8 @@ func ruleLinkKind(c *Ctx) {
 			if nt := namedOf(info.TypeOf(sel.X)); nt == nil || nt.Obj().Name() != "ProtoNode" {
 				return true
 			}
-			seen[funcName(fd)]++
-			key := fmt.Sprintf("%s@%s#%d", fname, w, seen[funcName(fd)])
+			seen[ownerName]++
+			key := fmt.Sprintf("%s@%s#%d", fname, w, seen[ownerName])
 			if sel.Sel.Name == w {
 				c.ok(key, sel.Pos(), "uses %s", w)
 			} else {
@@ -74,7 +99,7 @@ func ruleLinkKind(c *Ctx) {
 			}
 			return true
 		})
-	})
+	}
 	for fn := range want {
 		if seen[fn] == 0 {
 			anchorFail("link.kind: %s uses neither parent link (function renamed or rewritten?)", fn)
